@@ -60,6 +60,28 @@ def run(ctx):
             inner = shapes.simple(parts[0][1]) if parts[0][0] == "S" else None
             if inner is not None and d[0] == "D":
                 ctx.check(inner in X, "a component is not contained in the DisjointShape", d2)
+    # ---- composites with a history: queried, transformed in place (not undone), compared with the composite built at the new place
+    from harness.props.c04 import rebuild
+    for it in range(6 if ctx.quick else 120):
+        kind = ["connected", "connected-unbounded", "disjoint"][it % 3]
+        X, d = shapes.make(rng, kind, rng.randint(-3, 3), rng.randint(-3, 3), drv)
+        X, d2, T, seq = shapes.warm_transform(rng, X, d, force_reflect=(it % 2 == 0))
+        twin = rebuild(d2)
+        desc = {"kind": kind, "shape": core.jsonable(d), "in-place": core.jsonable(seq)}
+        ctx.case("composite-after-transform", (repr(d), repr(seq)))
+        tok2 = shapes.enc_desc(d2)
+        ctx.check(drv.ask(f"regioneq {core.eshape(X)} {tok2}") == "ok", "transformed composite: wrong region", desc)
+        ctx.check(float(X) == float(twin) and [float(sb) for sb in X.subshapes] == [float(sb) for sb in twin.subshapes], "transformed composite: float(area) of the shape or its sub-shapes is stale", desc, float(twin), float(X))
+        try:
+            with impl.time_limit(120):
+                ctx.check(X == twin and twin == X, "transformed composite is not == to the composite built at the new place", desc)
+        except impl.Timeout:
+            ctx.fail("== did not return", desc)
+        pts = [T(p) for p in core.dpts(drv.ask("samples 1 " + shapes.enc_desc(d)))[:40:4]]
+        pts = [p for p in pts if drv.ask(f"onb {tok2} {core.ept(p)}") == "F" and gen.maxden([p]) < 10 ** 8]
+        ctx.check([p in X for p in pts] == [drv.ask(f"memw {tok2} {core.ept(p)}") == "T" for p in pts], "transformed composite: containment answers", desc)
+        for (a, b) in MOMS[:4]:
+            ctx.check(IntegrateShape.polynomial(X, a, b) == F(drv.ask(f"moment {tok2} {a} {b}")), "transformed composite: moment", {**desc, "a": a, "b": b})
     # ---- collapse rules of DisjointShape
     S, ds = shapes.make(rng, "simple", 0, 0, drv)
     C, dc = shapes.make(rng, "connected", 30, 0, drv)
